@@ -282,15 +282,15 @@ theorem extractJoinBlock_good (lines : Lines) (start indent : Nat) : Good (extra
   have := joinParse_good start 0
   repeat (first | with_reducible exact this _ | good_step)
 
-theorem headerLine_good (line : Line) (i : Nat) (s : PSt) : Good (headerLine line i s) := by
+theorem headerLine_good (O : PyOracle) (line : Line) (i : Nat) (s : PSt) : Good (headerLine O line i s) := by
   unfold headerLine
   have h1 : ∀ h, Good (liftPy "extract_passage_params" (extractPassageParams h)) :=
     fun h => Good.liftPy _ _ (extractPassageParams_ok h)
   have h2 : ∀ n, Good (liftPy "validate_passage_name" (validatePassageName isAsciiAlnum isAsciiDigit n)) :=
     fun n => Good.liftPy _ _ (validatePassageName_ok _ _ n)
-  have h3 : ∀ p, Good (liftPy "parse_passage_params" (parsePassageParams p)) :=
-    fun p => Good.liftPy _ _ (parsePassageParams_ok p)
-  repeat (first | with_reducible exact h1 _ | with_reducible exact h2 _ | with_reducible exact h3 _ | good_step)
+  have h3 : ∀ ex p, Good (liftPy "parse_passage_params" (parsePassageParams ex p)) :=
+    fun ex p => Good.liftPy _ _ (parsePassageParams_ok ex p)
+  repeat (first | with_reducible exact h1 _ | with_reducible exact h2 _ | with_reducible exact h3 _ _ | good_step)
 
 theorem topChoice_good (lines : Lines) (i : Nat) (line : Line) (sec : Nat) : Good (topChoice lines i line sec) := by
   unfold topChoice
@@ -313,7 +313,7 @@ theorem coreLoop_good (O : PyOracle) (lines : Lines) : ∀ (f i : Nat) (s : PSt)
       have hre := parseRenderLine_good
       have hch := parseChoiceLine_good
       have hgl := contentLineGlue_good
-      have hhd := headerLine_good
+      have hhd := headerLine_good O
       have htc := topChoice_good lines
       have het : ∀ l, Good (liftPy "extract_target_and_args" (extractTargetAndArgs l)) :=
         fun l => Good.liftPy _ _ (extractTargetAndArgs_ok l)
@@ -372,11 +372,19 @@ theorem validateArgs_good (O : PyOracle) (ps : List (Line × PPassage)) : ∀ l,
 
 /-- **C11, internal errors, whole parser**: for every source text and every behaviour of CPython's own
 parser, `parse` never ends in an internal error (IndexError, ValueError from `.index`, unbound local, …) -/
-theorem parseText_no_internal (O : PyOracle) (src : Line) : ∀ w, parseText O src ≠ .error (.internal w) := by
+theorem parseStory_good (O : PyOracle) (src : Line) : Good (parseStory O src) := by
   have hc := coreLoop_good O
   have hv := validateArgs_good O
-  suffices hg : Good (parseText O src) from hg.h
-  unfold parseText
+  unfold parseStory determineInitial
   repeat (first | with_reducible exact hc _ _ _ _ | with_reducible exact hv _ _ | good_step)
+
+theorem parseText_no_internal (O : PyOracle) (src : Line) : ∀ w, parseText O src ≠ .error (.internal w) := by
+  intro w h
+  unfold parseText at h
+  split at h
+  · cases h
+  · rename_i e he
+    cases h
+    exact (parseStory_good O src).h w he
 
 end Bardic.Parser
